@@ -420,9 +420,11 @@ class TemplateModel(object):
             self.n_clusters = self.spike_clusters.max() + 1
         else:
             self.merge_map = {}
-            self.nan_idx = []
             self.sparse_clusters = self.sparse_templates
             self.n_clusters = self.n_templates
+            # The cluster ids without spikes, as get_merge_map reports them for curated data.
+            self.nan_idx = np.setdiff1d(
+                np.arange(self.n_clusters, dtype=np.int64), self.spike_clusters)
 
         # Spike waveforms (optional, otherwise fetched from raw data as needed).
         self.spike_waveforms = self._load_spike_waveforms()
